@@ -733,6 +733,9 @@ package tengo
 //@   loop 4 invariant k: c.symbolTable != nil && c.symbolTable.parent == st0 && !c.symbolTable.block && c.scopeIndex == old(c.scopeIndex) + 1 && c.scopeIndex == len(c.scopes) - 1
 //@                   && c.scopes[c.scopeIndex].SourceMap != nil && c.scopes[c.scopeIndex].Instructions == nil
 //@   loop 4 invariant b: forall j in 0..old(c.scopeIndex)+1 :: sameslice(c.scopes[j].Instructions, old(c.scopes[j].Instructions)) && c.scopes[j].SourceMap == old(c.scopes[j].SourceMap)
+//@   loop 5 step preinit_defines{C11,C01}: continued && len(c.scopes[c.scopeIndex].Instructions) > it0(len(c.scopes[c.scopeIndex].Instructions))
+//@                   && c.scopes[c.scopeIndex].Instructions[it0(len(c.scopes[c.scopeIndex].Instructions))] == parser.OpNull
+//@              ==> c.scopes[c.scopeIndex].Instructions[it0(len(c.scopes[c.scopeIndex].Instructions))+1] == parser.OpDefineLocal
 //@   loop 5 invariant k: c.symbolTable == st0 && c.scopeIndex == old(c.scopeIndex) && c.scopeIndex == len(c.scopes) - 1 && c.scopes[c.scopeIndex].SourceMap != nil
 //@   loop 5 invariant g: len(c.scopes[c.scopeIndex].Instructions) >= len(ins0) && (samearray(c.scopes[c.scopeIndex].Instructions, ins0) || fresh(c.scopes[c.scopeIndex].Instructions))
 //@   loop 5 invariant b: forall j in 0..c.scopeIndex :: sameslice(c.scopes[j].Instructions, old(c.scopes[j].Instructions)) && c.scopes[j].SourceMap == old(c.scopes[j].SourceMap)
@@ -832,3 +835,14 @@ package tengo
 //@   ensures below{C02}: result == nil ==> forall j in 0..c.scopeIndex ::
 //@                   sameslice(c.scopes[j].Instructions, old(c.scopes[j].Instructions)) && c.scopes[j].SourceMap == old(c.scopes[j].SourceMap)
 //@   ensures prefix{C02}: result == nil ==> forall i in 0..len(ins0) :: c.scopes[c.scopeIndex].Instructions[i] == old(c.scopes[c.scopeIndex].Instructions[i])
+//@   loop 0 invariant k: c.symbolTable == st0 && c.scopeIndex == old(c.scopeIndex) && c.scopeIndex == len(c.scopes) - 1 && c.scopes[c.scopeIndex].SourceMap != nil
+//@   loop 0 invariant g: len(c.scopes[c.scopeIndex].Instructions) >= len(ins0) && (samearray(c.scopes[c.scopeIndex].Instructions, ins0) || fresh(c.scopes[c.scopeIndex].Instructions))
+//@   loop 0 invariant b: forall j in 0..c.scopeIndex :: sameslice(c.scopes[j].Instructions, old(c.scopes[j].Instructions)) && c.scopes[j].SourceMap == old(c.scopes[j].SourceMap)
+//@   loop 0 invariant p: forall i in 0..len(ins0) :: c.scopes[c.scopeIndex].Instructions[i] == old(c.scopes[c.scopeIndex].Instructions[i])
+//@   loop 1 invariant k: c.symbolTable == st0 && c.scopeIndex == old(c.scopeIndex) && c.scopeIndex == len(c.scopes) - 1 && c.scopes[c.scopeIndex].SourceMap != nil
+//@   loop 1 invariant g: len(c.scopes[c.scopeIndex].Instructions) >= len(ins0) && (samearray(c.scopes[c.scopeIndex].Instructions, ins0) || fresh(c.scopes[c.scopeIndex].Instructions))
+//@   loop 1 invariant b: forall j in 0..c.scopeIndex :: sameslice(c.scopes[j].Instructions, old(c.scopes[j].Instructions)) && c.scopes[j].SourceMap == old(c.scopes[j].SourceMap)
+//@   loop 1 invariant p: forall i in 0..len(ins0) :: c.scopes[c.scopeIndex].Instructions[i] == old(c.scopes[c.scopeIndex].Instructions[i])
+
+//@ func resolveAssignLHS
+//@   assigns nothing
